@@ -3394,6 +3394,10 @@ sf_set_chunk (SNDFILE * sndfile, const SF_CHUNK_INFO * chunk_info)
 	if (chunk_info == NULL || chunk_info->data == NULL)
 		return SFE_BAD_CHUNK_PTR ;
 
+	/* Custom chunks live in the header; once audio data follows it, it cannot grow any more. */
+	if (psf->have_written)
+		return SFE_CMD_HAS_DATA ;
+
 	if (psf->set_chunk)
 		return psf->set_chunk (psf, chunk_info) ;
 
